@@ -136,7 +136,9 @@ def writeDatabaseAt (s : Eng) (offset : Nat) (data : ByteArray) : M Eng := do
   ensure s (¬ (offset % s.pageSize ≠ 0)) .err
   ensure s (¬ (data.size ≠ s.pageSize)) .err
   let pgno := offset / s.pageSize + 1
-  let s := if !s.walMode && !s.dirty.contains pgno then { s with dirty := pgno :: s.dirty } else s
+  -- dirty pages are tracked in rollback mode, and for a rollback-journal transaction on a database
+  -- still recorded as WAL (`InWriteTx()`: RESERVED held exclusively — the switch away from WAL)
+  let s := if (!s.walMode || s.locks.state .reserved == .exclusive) && !s.dirty.contains pgno then { s with dirty := pgno :: s.dirty } else s
   writeDatabasePage s pgno data
 
 /-- `TruncateDatabase(size)` -/
